@@ -327,11 +327,19 @@ func zzC03CreateURR() {
 	if in.has[2] {
 		zzAssume(in.seconds() >= 1) // a zero measurement period is rejected by the driver: outside "well-formed"
 	}
-	if in.perio() {
-		zzAssume(in.has[2]) // a periodic URR carries its measurement period
-	}
 	kids := zzRotate(in.kids, nondetChoice("rotate", len(in.kids)), nondetChoice("reverse", 2) == 1)
 	err := g.CreateURR(seid, ie.NewGroupedIE(ie.CreateURR, kids...))
+	if in.perio() && !in.has[2] {
+		// periodic reporting asked for without a period: not a well-formed URR. Whatever the driver
+		// answers, it must not register a timer without a period (the periodic server hands the period
+		// to time.NewTicker, which faults on a non-positive one - in another goroutine, taking the
+		// process down) and must not leave a rule in the kernel that reports on no schedule at all
+		evs := zzPerio().ZZDrain()
+		zzAssert("C03.urr.perio-without-period.nothing-registered", len(evs) == 0)
+		zzAssert("C03.urr.perio-without-period.refused", err != nil && len(k.reqs) == 0)
+		zzCover("C03.urr.perio-without-period")
+		return
+	}
 	zzAssert("C03.urr.accepted", err == nil)
 	if attrs, ok := zzOneReq(k, 0, "CreateURR", "urr"); ok {
 		zzObserve("request", k.reqs[0].b)
@@ -345,6 +353,7 @@ func zzC03CreateURR() {
 			e := evs[0]
 			zzAssert("C03.urr.perio.add", e.Type == 1 && e.SEID == seid && e.URRID == zzBE32(in.id))
 			zzAssert("C03.urr.perio.period", e.Period == time.Duration(in.seconds())*time.Second)
+			zzAssert("C03.urr.perio.period-positive", e.Period > 0)
 		}
 		zzCover("C03.urr.perio")
 	} else {
